@@ -65,9 +65,10 @@ class _Stub:
         return m
 
 
-def _msg(computer: str, uod: str) -> EM.RegisterEngineMsg:
+def _msg(computer: str, uod: str, other_version: bool = False, ignore: bool = False) -> EM.RegisterEngineMsg:
     return EM.RegisterEngineMsg(computer_name=computer, uod_name=uod, uod_author_name="n", uod_author_email="e",
-                                uod_filename="f", location="l", engine_version=__version__)
+                                uod_filename="f", location="l", engine_version=(__version__ + ".x") if other_version else __version__,
+                                ignore_version_error=ignore)
 
 
 _AGG = None
@@ -171,9 +172,12 @@ class World:
         kind, c = ev
         rec = {"ev": ev, "pair": self.pairs[c], "problems": []}
         before = dict(self.dispatcher._engine_id_channel_map)
-        if kind == "reg":
+        if kind in ("reg", "regv", "regx"):
+            # regv: an engine of another version that asks to ignore the version check; regx: another version without that flag
             assert self.dispatcher._register_handler is not None
-            reply = await self.dispatcher._register_handler(_msg(*self.pairs[c]))
+            reply = await self.dispatcher._register_handler(_msg(*self.pairs[c], other_version=kind != "reg", ignore=kind == "regv"))
+            if kind == "regx" and reply.success:
+                rec["problems"].append(("C38:registration-of-other-version-accepted", f"{ev!r}: engine of another version registered without the ignore flag"))
             rec["success"], rec["engine_id"] = reply.success, reply.engine_id
             if reply.success:
                 if reply.engine_id in before:
@@ -243,6 +247,13 @@ def enabled(w: World, hist):
             evs.append(("con", c))
         if w.channel[c] is not None:
             evs.append(("dis", c))
+    return evs
+
+
+def enabled_versions(w: World, hist):
+    evs = list(enabled(w, hist))
+    for c in range(len(w.pairs)):
+        evs += [("regv", c), ("regx", c)]
     return evs
 
 
@@ -349,6 +360,16 @@ def run(ctx):
             ctx.violation(sig + ":escaped-names", what,
                           {"part": "b", "pairs": [list(p) for p in pairs2], "history": [list(e) for e in hist] + [list(ev)]})
     res2 = explore.bfs(lambda h: build(pairs2, h), enabled, lambda w: w.canon(), on_tr2, depth)
+    # third BFS: registrations from an engine of another version (with / without the ignore-version flag)
+    pairs3 = [("a", "b"), ("a", "b")]
+
+    def on_tr3(hist, ev, nxt):
+        rec = nxt.obs[-1]
+        for sig, what in rec["problems"]:
+            ctx.violation(sig + (":other-version" if ev[0] != "reg" else ":after-other-version"), what,
+                          {"part": "b", "pairs": [list(p) for p in pairs3], "history": [list(e) for e in hist] + [list(ev)]})
+    res3 = explore.bfs(lambda h: build(pairs3, h), enabled_versions, lambda w: w.canon(), on_tr3, 6)
+    ctx.note(f"[C38] (b3) clients={pairs3} with regv/regx: states={res3.states} transitions={res3.transitions}")
     ctx.note(f"[C38] (b2) clients={pairs2}: states={res2.states} transitions={res2.transitions}")
     ctx.note(f"[C38] (b) clients={pairs} depth={depth}: states={res.states} transitions={res.transitions} max_depth={res.max_depth} "
              f"cut_at_bound={res.frontier_at_bound} register-refused-while-connected={stats['refused']} "
@@ -365,7 +386,7 @@ def run(ctx):
              "equal ids; non-trivial = a pair in which a name contains '_', '/', '%' or space.  (b) BFS over register/connect/"
              "disconnect of the clients on the real handlers, canonical states deduplicated",
         samples=[["a_", "b"], ["a", "_b"], ["a/", "% "], [list(e) for e in (res.histories[-1] if res.histories else ())]],
-        states=res.states + res2.states, transitions=res.transitions + res2.transitions, bfs_depth=depth,
+        states=res.states + res2.states + res3.states, transitions=res.transitions + res2.transitions + res3.transitions, bfs_depth=depth, third_bfs="two processes of one engine, events reg/con/dis plus regv (other version, ignore flag) and regx (other version), depth 6",
         second_bfs_clients=[list(p) for p in pairs2], bfs_max_depth_reached=res.max_depth,
         bfs_state_space_closed=res.complete, bfs_clients=[list(p) for p in pairs],
         register_refused_while_connected=stats["refused"], connect_refused=stats["con_refused"],
